@@ -4,11 +4,15 @@
    C14_assign_frame / C14_delete_frame: on success nothing outside that container changes; on any failure the
    document is unchanged.  C14_delete_missing: deleting an entry that no longer exists raises PopError and
    leaves the document unchanged.
-   UNDISCHARGED: the forwarding itself (parent/data_name of a match obtained through filters or recursion name
-   the document's own container) is the chain lemma of RefineBase.v plus the correspondence of this check. *)
+   C14_assign_writes_at_position: for every well-formed match a parent-free query delivers from a document with
+   unique keys and unique identity labels -- whatever bookkeeping matches of filters, recursion or nested
+   searches stand behind it -- `m.data = v` (which goes through match.parent.data[match.data_name] and mutates
+   by object identity) replaces exactly the node at the explicit path of m: the forwarding of parent and
+   data_name is part of the theorem (proofs/AssignPosition.v: parent_chain).
+   (The positional form of del / pop is not stated; the frame theorems above and the correspondence cover them.) *)
 From Coq Require Import List ZArith String Bool PArith.
-From TP Require Import Json PyPrim Machine Api Mutate.
-From TP.proofs Require Import MutateProofs.
+From TP Require Import Json PyPrim Machine Api Spec SpecHas Mutate SpecSet Obs Dsl Run.
+From TP.proofs Require Import RefineBase SpecLemmas BelowLemmas MutateProofs RoundTrip AssignPosition.
 Import ListNotations.
 
 Theorem C14_assign_frame : forall doc (m : @tm json) x r doc',
@@ -31,3 +35,11 @@ Theorem C14_delete_missing : forall doc (m pm : @tm json) i its k,
     match_del doc m = (Exn EPop, doc).
 Proof. exact match_del_missing. Qed.
 Print Assumptions C14_delete_missing.
+
+Theorem C14_assign_writes_at_position :
+  forall doc (sev : hp -> jctx -> res json * list sevent) (p : list (vertex hp)) (m pm : @tm json) x,
+    uniq doc -> NoDup (labels doc) -> no_parent p -> wf m ->
+    In (abs m) (deval hp sev p (root_ctx doc)) -> parent m = Some pm ->
+    match_assign doc m x = (Ok tt, put_at doc (explicit_path m) x).
+Proof. exact match_assign_delivered. Qed.
+Print Assumptions C14_assign_writes_at_position.
